@@ -202,6 +202,11 @@ def gen_c16(tier, seed):
     scs.append(pure("doc-example", "sort_args", attr="name", reverse=False, names=["10", "2", "33", "1", "-5"]))
     scs.append(pure("repo-natural", "cmp_grid", attr="natural", names=["A<4>", "A<8>", "A<16>", "A<32>", "A<64>"]))
     scs.append(pure("repo-cmp-int", "cmp_grid", attr="natural", names=["4", "8", "16", "32", "64", "08", "0", "00"]))
+    # fixed witnesses of the two recorded findings about string lists
+    versions = ["1.9", "abc", "1.3", "12", "1.5", "2.0.1", "1.10b", "1.100", "3.1", "1.25", "0.5", "2.0", "3.0",
+                "3.0-rc", "1e3x", "v2", "beta", "7", "1.9.1", "10", "1.10"]
+    scs.append(pure("versions-21", "sort_args", attr="name", reverse=False, names=versions))
+    scs.append(pure("zero-spellings", "cmp_grid", attr="name", names=["0", "0.0", "-0"]))
     # exhaustive small domain: every ordered pair, every attribute
     dom = strs_upto(MC_ALPHABET, 2)
     scs.append(pure("grid-natural-2", "cmp_grid", attr="natural", names=dom))
@@ -212,18 +217,26 @@ def gen_c16(tier, seed):
         dom3 = strs_upto(MC_ALPHABET, 3)
         scs.append(pure("grid-natural-3", "cmp_grid", attr="natural", names=dom3))
         scs.append(pure("grid-name-3", "cmp_grid", attr="name", names=dom3))
-    # argument lists: each class, three attributes, two directions
-    lens = [0, 1, 2, 3, 5, 8, 13, 20, 21, 22, 25, 30]
-    n_sort = (14 if not big else 60)
+    # argument lists: each class, three attributes, two directions; a few
+    # lists beyond 20 elements (where the standard sort switches algorithm and
+    # may detect an inconsistent comparator)
+    short = [0, 1, 2, 3, 5, 8, 13, 20]
     k = 0
     for cls in LIST_CLASSES:
         for attr in ATTRS:
-            for rep in range(n_sort if attr != "location" else max(2, n_sort // 5)):
-                n = rnd.choice(lens) if rep % 4 else rnd.choice([21, 24, 30, 30, 45, 60])
+            reps = (3 if attr == "location" else 7) if not big else (12 if attr == "location" else 60)
+            for rep in range(reps):
+                if rep % 3 == 2:
+                    n = rnd.choice([21, 22, 25, 30]) if (not big or rep % 6) else rnd.choice([45, 60])
+                else:
+                    n = rnd.choice(short)
                 names = rand_list(rnd, cls, n)
                 scs.append(pure(f"sort-{cls}-{attr}-{k}", "sort_args", attr=attr,
                                 reverse=rnd.random() < 0.5, names=names))
                 k += 1
+    for cls in ("int", "float", "mixed"):
+        scs.append(pure(f"sort-{cls}-name-long", "sort_args", attr="name", reverse=cls == "float",
+                        names=rand_list(rnd, cls, 60)))
     # whole comparison matrices of random lists (consistency of the real comparator)
     for cls in LIST_CLASSES:
         for rep in range(4 if not big else 16):
@@ -316,7 +329,7 @@ def rand_filter(rnd, inner, cases, inclusive):
         r = rnd.random()
         if r < 0.35:  # a fragment of a path
             i = rnd.randrange(len(t))
-            j = rnd.randint(i, min(len(t), i + rnd.randint(1, 8)))
+            j = rnd.randint(i + 1, min(len(t), i + rnd.randint(1, 8)))
             items = items_from_text(t[i:j])
         elif r < 0.5:  # the whole path, anchored: matches that node only
             items = [{"t": "bol"}] + items_from_text(t) + [{"t": "eol"}]
@@ -390,7 +403,7 @@ def gen_c13(tier, seed):
                 scs.append(pure(f"ex{k}", "is_match", calls=list(seq), path=p))
                 k += 1
     # random trees x filter sets: 0..4 positive, 0..4 skip
-    for t in range(60 if not big else 400):
+    for t in range(150 if not big else 600):
         inner, cases = rand_tree_paths(rnd)
         for fsn in range(4):
             npos, nskip = rnd.randint(0, 4), rnd.randint(0, 4)
@@ -452,7 +465,7 @@ def gen_c15(tier, seed):
                         other=rand_options(rnd, rnd.choice([0.2, 0.5, 0.8]))))
     # resolution through runner, benchmark and up to 3 nested groups:
     # one field, every assignment of {unset, v1, v2} at 5 levels
-    for key in (KEYS if big else rnd.sample(KEYS, 4)):
+    for key in KEYS:
         v1, v2 = VALUES[key][0], VALUES[key][-1]
         for assign in itertools.product(([], [v1], [v2]), repeat=5):
             levels = []
@@ -473,8 +486,9 @@ GEN = {"C13": gen_c13, "C15": gen_c15, "C16": gen_c16}
 MC = {
     "C16": lambda tier: [("MC_Names", "Names_q" if tier == "quick" else "Names_t", True),
                          ("MC_Names", "Names_v_mixed", False)],
-    "C15": lambda tier: [("MC_Options", "Options_q", True)],
-    "C13": lambda tier: [("MC_Filters", "Filters_q" if tier == "quick" else "Filters_t", True)],
+    "C15": lambda tier: [("MC_Options", "Options_q", True), ("MC_Options", "Options_v_outer", False)],
+    "C13": lambda tier: [("MC_Filters", "Filters_q" if tier == "quick" else "Filters_t", True),
+                         ("MC_Filters", "Filters_v_positive_wins", False)],
 }
 ASSUMPTIONS = {
     "C16": [
@@ -520,6 +534,7 @@ def make_replay(lines, start, end, line_no, r):
 # ------------------------------------------------------------ known findings
 
 INT_RE = re.compile(r"^[+-]?[0-9]+$")
+F64_RE = re.compile(r"^[+-]?(([0-9]+\.?[0-9]*|\.[0-9]+)([eE][+-]?[0-9]+)?|inf|infinity|nan)$", re.I)
 
 
 def int_typed(s):
@@ -530,38 +545,91 @@ def int_typed(s):
     return (I128_MIN <= v <= U128_MAX) and not (s.startswith("-") and v > 0)
 
 
+def float_typed(s):
+    """what f64::from_str accepts (ASCII only)"""
+    return bool(s.isascii() and F64_RE.match(s))
+
+
+def zero_kinds(names):
+    """which of the three zero spellings occur: negative-zero integer text,
+    unsigned zero integer text, zero that only reads as a decimal"""
+    kinds = set()
+    for s in names:
+        if re.match(r"^-0+$", s):
+            kinds.add("neg-int")
+        elif re.match(r"^\+?0+$", s):
+            kinds.add("unsigned-int")
+        elif float_typed(s) and not int_typed(s) and "n" not in s.lower() and float(s) == 0.0:
+            kinds.add("decimal")
+    return kinds
+
+
+def known_findings():
+    p = os.environ.get("PURE_KNOWN_FINDINGS")      # testing aid of the standalone entry point
+    if p:
+        return json.load(open(p))
+    return V.load_known_findings()
+
+
 def is_known_for(prop):
-    entries = [f for f in V.load_known_findings().get("findings", [])
-               if f.get("property") == prop and f.get("match", {}).get("kind") == "arg-name-int-compare"]
+    entries = {}
+    for f in known_findings().get("findings", []):
+        if f.get("property") == prop:
+            entries.setdefault(f.get("match", {}).get("kind"), f)
+
+    def describe(kind, sc):
+        e = entries[kind]
+        return f"{e.get('id')} {e.get('title', '')} [{sc.get('op')} attr={sc.get('attr')} id={sc.get('id')}]"
 
     def is_known(obj):
-        """F4-style: a comparison / sort of argument names in which the name
-        attribute takes part (attr name or kind; under location the position
-        decides before the name) and at least two integer-typed names of
-        different value are involved."""
-        if not entries:
-            return None
         sc = obj.get("scenario") or {}
-        if sc.get("op") not in ("cmp_arg", "cmp_grid", "sort_args") or sc.get("attr") not in ("name", "kind"):
-            return None
-        rules = obj.get("rules") or []
-        allowed = {"C16:arg_order_differs_from_documented_order", "C16:arguments_not_in_documented_order",
-                   "C16:comparator_not_transitive", "C16:sort_panicked", "C16:reverse_is_not_the_exact_reverse"}
-        if not rules or not set(rules) <= allowed:
-            return None
+        rules = set(obj.get("rules") or [])
         names = sc.get("names") or []
-        if sc["op"] == "cmp_arg":
-            involved = [names[sc["i"]], names[sc["j"]]]
-        else:
-            involved = names
-            m = re.search(r'"i", (\d+), "j", (\d+)', obj.get("witness") or "")
-            if sc["op"] == "cmp_grid" and m:
-                involved = [names[int(m.group(1))], names[int(m.group(2))]]
-        ints = {int(s) for s in involved if int_typed(s)}
-        if sum(1 for s in involved if int_typed(s)) < 2 or len(ints) < 2:
+        witness = obj.get("witness") or ""
+        if not rules or sc.get("op") not in ("cmp_arg", "cmp_grid", "sort_args"):
             return None
-        e = entries[0]
-        return f"{e.get('id')} {e.get('title', '')} [{sc.get('op')} attr={sc.get('attr')} id={sc.get('id')}]"
+        # under "location" the position decides before the name is looked at
+        if sc.get("attr") not in ("name", "kind"):
+            return None
+
+        # F4: cmp_bench_arg_names parsed `a` twice.  Exactly: the name
+        # attribute takes part and at least two integer-typed names of
+        # different value are involved.
+        if "arg-name-int-compare" in entries and rules <= {
+                "C16:arg_order_differs_from_documented_order", "C16:arguments_not_in_documented_order",
+                "C16:comparator_not_antisymmetric", "C16:comparator_not_transitive", "C16:sort_panicked",
+                "C16:reverse_is_not_the_exact_reverse"}:
+            involved = names
+            if sc["op"] == "cmp_arg":
+                involved = [names[sc["i"]], names[sc["j"]]]
+            elif sc["op"] == "cmp_grid":
+                m = re.search(r'"i", (\d+), "j", (\d+)', witness)
+                if m:
+                    involved = [names[int(m.group(1))], names[int(m.group(2))]]
+            ints = [int(x) for x in involved if int_typed(x)]
+            if len(ints) >= 2 and len(set(ints)) >= 2:
+                return describe("arg-name-int-compare", sc)
+
+        # the documented rule (numeric names by value, all other pairs in
+        # natural order) is not transitive on lists that mix numeric and
+        # non-numeric names, so no comparator can be a total order there and
+        # the standard sort may panic.  Exactly: a panic, on a list for which
+        # TLC found the documented relation not to be a total preorder.
+        if "arg-name-mixed-list-not-total" in entries and sc["op"] == "sort_args" \
+                and rules <= {"C16:sort_panicked", "C16:comparator_not_transitive"} \
+                and '"documented_order_total_on_list", FALSE' in witness \
+                and any(float_typed(x) for x in names) and any(not float_typed(x) for x in names):
+            return describe("arg-name-mixed-list-not-total", sc)
+
+        # "-0" reads as i128 but not as u128: it is put before "0" whatever the
+        # positions, while both equal "0.0" as floats -> a 3-cycle.  Exactly:
+        # lists with all three spellings of zero.
+        if "arg-name-negative-zero-text" in entries and sc["op"] in ("sort_args", "cmp_grid") \
+                and rules <= {"C16:sort_panicked", "C16:comparator_not_transitive",
+                              "C16:arguments_not_in_documented_order", "C16:reverse_is_not_the_exact_reverse"} \
+                and zero_kinds(names) == {"neg-int", "unsigned-int", "decimal"}:
+            return describe("arg-name-negative-zero-text", sc)
+        return None
     return is_known
 
 
@@ -604,7 +672,7 @@ def negative_control(res, prop, trace_path):
         got.append({"expected": f"{prop}Holds", "got": r.get("violated"), "rules": V.bad_rules(r["out"])})
         if r.get("violated") != f"{prop}Holds":
             raise V.ToolError(f"negative control #{i} not caught: {r.get('violated')} ({p})")
-    res.extra.setdefault("negative_control", {})[f"pure_{prop}"] = got
+    res.extra.setdefault("pure_negative_control", {})[prop] = got
 
 
 # ------------------------------------------------------------------- running
@@ -619,24 +687,32 @@ def run_mc(res, prop, tier):
             raise V.ToolError(f"{module}/{cfg}: the variant was expected to fail and did not")
 
 
+CHUNK = {"sort_args": 40, "cmp_grid": 12}
+
+
 def split_by_op(trace_path):
-    """One file per operation, so that a violating record of one kind does not
-    force the re-validation of everything else (order is irrelevant: every
-    record is a run of its own)."""
+    """One file per operation (order is irrelevant: every record is a run of
+    its own), expensive kinds in chunks and every big matrix alone, so that an
+    offending record does not force the re-validation of everything else."""
     groups = {}
     for x in V.read_trace(trace_path):
         op = x.get("op", "crash") if x.get("ev") == "reset" else "crash"
         if op == "begin":
             op = "crash"
         groups.setdefault(op, []).append(x)
-    out = []
+    files = []
     for op, xs in sorted(groups.items(), key=lambda kv: len(json.dumps(kv[1][0]))):
-        p = f"{trace_path}.{op}"
-        with open(p, "w") as f:
-            for x in xs:
-                f.write(json.dumps(x) + "\n")
-        out.append((op, p, len(xs)))
-    return out
+        size = CHUNK.get(op, 1500)
+        alone = [x for x in xs if op == "cmp_grid" and len(x.get("names", [])) > 40]
+        rest = [x for x in xs if x not in alone]
+        parts = [rest[i:i + size] for i in range(0, len(rest), size)] + [[x] for x in alone]
+        for k, part in enumerate(parts):
+            p = f"{trace_path}.{op}.{k}"
+            with open(p, "w") as f:
+                for x in part:
+                    f.write(json.dumps(x) + "\n")
+            files.append((op if len(parts) == 1 else f"{op}[{k}]", p, len(part)))
+    return files
 
 
 def run_pure_level(res, prop, tier, seed):
@@ -648,7 +724,7 @@ def run_pure_level(res, prop, tier, seed):
     run_mc(res, prop, tier)
     scs = GEN[prop](tier, seed)
     trace_path, summary = V.run_driver(scs, f"{PREFIX}.{prop}")
-    res.extra.setdefault("driver", {})[f"pure_{prop}"] = summary
+    res.extra.setdefault("pure_driver", {})[prop] = summary
     counts = {}
     for sc in scs:
         counts[sc["op"]] = counts.get(sc["op"], 0) + 1
@@ -696,6 +772,8 @@ def main(argv):
     V.ensure_dirs()
     # standalone runs keep their evidence out of /verif/evidence
     V.EVIDENCE = os.path.join(V.WORK, "pure_evidence")
+    if os.environ.get("PURE_SKIP_BUILD"):          # the driver was built by hand (cargo build -p verif-driver)
+        V._built = True
     os.makedirs(V.EVIDENCE, exist_ok=True)
     if "--replay" in argv:
         return replay(prop, argv[argv.index("--replay") + 1])
